@@ -100,7 +100,7 @@ Proof.
   intros H. unfold dec_cursor. destruct (mid_ok data 2 1) as [body ->]; [lia|]. total_cases.
 Qed.
 
-Theorem dec_decmode_total ms ss data : (5 <= length data)%nat -> exists r, dec_decmode ms ss data = Ok r.
+Theorem dec_decmode_total tb data : (5 <= length data)%nat -> exists r, dec_decmode tb data = Ok r.
 Proof.
   intros H. unfold dec_decmode. destruct (mid_ok data 3 2) as [body ->]; [lia|]. total_cases.
 Qed.
@@ -110,10 +110,137 @@ Proof.
   intros H. unfold dec_devattrs. destruct (mid_ok data 3 1) as [body ->]; [lia|]. total_cases.
 Qed.
 
-Theorem dec_sgr_total data : (3 <= length data)%nat -> exists r, dec_sgr data = Ok r.
+(* ---- sgr_color / sgr_face: total when the palette tables have the sizes the code indexes ---- *)
+
+Definition tabs_ok (tb : dtabs) : bool :=
+  Nat.eqb (length (dt_cube tb)) 6 && Nat.eqb (length (dt_greys tb)) 24 && Nat.eqb (length (dt_colors tb)) 16.
+
+Lemma tab_ok {A} (l : list A) i : (N.to_nat i < length l)%nat -> exists a, tab l i = Ok a.
 Proof.
-  intros H. unfold dec_sgr. destruct (mid_ok data 2 1) as [body ->]; [lia|]. total_cases.
+  intros H. unfold tab. destruct (nth_error l (N.to_nat i)) eqn:E; [eexists; reflexivity|].
+  apply nth_error_None in E. lia.
 Qed.
+
+Section SgrTotal.
+  Variable tb : dtabs.
+  Hypothesis Htabs : tabs_ok tb = true.
+
+  Lemma tabs_lengths : length (dt_cube tb) = 6%nat /\ length (dt_greys tb) = 24%nat /\ length (dt_colors tb) = 16%nat.
+  Proof.
+    pose proof Htabs as H. unfold tabs_ok in H. apply andb_prop in H. destruct H as [H H3].
+    apply andb_prop in H. destruct H as [H1 H2]. apply Nat.eqb_eq in H1, H2, H3. auto.
+  Qed.
+
+  Lemma take1_len l : (length (snd (take1 l)) <= length l)%nat.
+  Proof. destruct l; cbn; lia. Qed.
+
+  Lemma sgr_color_total cmds sub :
+    exists c r, sgr_color tb cmds sub = Ok (c, r) /\ (length r <= length cmds)%nat.
+  Proof.
+    destruct tabs_lengths as (Hc & Hg & Hl).
+    unfold sgr_color. destruct cmds as [|c0 r0]; [exists None, []; split; [reflexivity|cbn; lia]|].
+    destruct (number_decode c0) as [k|]; [|exists None, r0; split; [reflexivity|cbn; lia]].
+    destruct (k =? 5).
+    - destruct r0 as [|c1 r1]; [exists None, []; split; [reflexivity|cbn; lia]|].
+      destruct (number_decode c1) as [index|]; [|exists None, r1; split; [reflexivity|cbn; lia]].
+      destruct (N.ltb_spec index 16).
+      + destruct (tab_ok (dt_colors tb) index) as [c ->]; [lia|]. cbn [bind].
+        eexists; eexists; split; [reflexivity|cbn; lia].
+      + destruct (N.ltb_spec index 232).
+        * set (i := index - 16). set (ri := i / 36). set (i2 := i - ri * 36). set (gi := i2 / 6).
+          assert (Hi : i < 216) by (subst i; lia).
+          assert (Hri : ri < 6) by (subst ri; apply N.div_lt_upper_bound; lia).
+          assert (Hi2 : i2 < 36).
+          { subst i2 ri. pose proof (N.mod_eq i 36 ltac:(lia)) as E.
+            pose proof (N.mod_lt i 36 ltac:(lia)). lia. }
+          assert (Hgi : gi < 6) by (subst gi; apply N.div_lt_upper_bound; lia).
+          assert (Hbi : i2 - gi * 6 < 6).
+          { subst gi. pose proof (N.mod_eq i2 6 ltac:(lia)) as E.
+            pose proof (N.mod_lt i2 6 ltac:(lia)). lia. }
+          destruct (tab_ok (dt_cube tb) ri) as [r ->]; [lia|]. cbn [bind].
+          destruct (tab_ok (dt_cube tb) gi) as [g ->]; [lia|]. cbn [bind].
+          destruct (tab_ok (dt_cube tb) (i2 - gi * 6)) as [b ->]; [lia|]. cbn [bind].
+          eexists; eexists; split; [reflexivity|cbn; lia].
+        * destruct (N.ltb_spec index 256).
+          -- destruct (tab_ok (dt_greys tb) (index - 232)) as [v ->]; [lia|]. cbn [bind].
+             eexists; eexists; split; [reflexivity|cbn; lia].
+          -- eexists; eexists; split; [reflexivity|cbn; lia].
+    - destruct (k =? 2); [|exists None, r0; split; [reflexivity|cbn; lia]].
+      pose proof (take1_len r0) as L1. destruct (take1 r0) as [a r1]. cbn [snd] in L1.
+      pose proof (take1_len r1) as L2. destruct (take1 r1) as [b r2]. cbn [snd] in L2.
+      pose proof (take1_len r2) as L3. destruct (take1 r2) as [c r3]. cbn [snd] in L3.
+      assert (L4 : (length (snd (if sub then take1 r3 else (None, r3))) <= length r3)%nat)
+        by (destruct sub; [apply take1_len|cbn; lia]).
+      destruct (if sub then take1 r3 else (None, r3)) as [d r4]. cbn [snd] in L4.
+      destruct (onum a), (onum b), (onum c), (onum d); eexists; eexists; (split; [reflexivity|cbn [length]; lia]).
+  Qed.
+
+  Lemma sgr_group_total face g rest :
+    exists f r, sgr_group tb face g rest = Ok (f, r) /\ (length r <= length rest)%nat.
+  Proof.
+    destruct tabs_lengths as (Hc & Hg & Hl).
+    unfold sgr_group.
+    destruct (match split_on 58 g with a0 :: _ => number_decode a0 | [] => None end) as [v|];
+      [|eexists; eexists; split; [reflexivity|lia]].
+    repeat match goal with
+           | |- context [if ?v =? ?k then _ else _] => destruct (v =? k)
+           end;
+      try (eexists; eexists; split; [reflexivity|lia]).
+    (* the three colour commands *)
+    1-3: destruct (negb (has_colon g));
+      [ destruct (sgr_color_total rest false) as (c & r & -> & Hr); cbn [bind];
+        eexists; eexists; split; [reflexivity|exact Hr]
+      | destruct (sgr_color_total (tl (split_on 58 g)) true) as (c & r & -> & Hr); cbn [bind];
+        eexists; eexists; split; [reflexivity|lia] ].
+    (* named colours *)
+    destruct ((30 <=? v) && (v <=? 37)) eqn:E1.
+    { apply andb_prop in E1. destruct E1 as [A B]. apply N.leb_le in A, B.
+      destruct (tab_ok (dt_colors tb) (v - 30)) as [c ->]; [lia|]. cbn [bind].
+      eexists; eexists; split; [reflexivity|lia]. }
+    destruct ((90 <=? v) && (v <=? 97)) eqn:E2.
+    { apply andb_prop in E2. destruct E2 as [A B]. apply N.leb_le in A, B.
+      destruct (tab_ok (dt_colors tb) (v - 82)) as [c ->]; [lia|]. cbn [bind].
+      eexists; eexists; split; [reflexivity|lia]. }
+    destruct ((40 <=? v) && (v <=? 48)) eqn:E3.
+    { apply andb_prop in E3. destruct E3 as [A B]. apply N.leb_le in A, B.
+      destruct (tab_ok (dt_colors tb) (v - 40)) as [c ->]; [lia|]. cbn [bind].
+      eexists; eexists; split; [reflexivity|lia]. }
+    destruct ((100 <=? v) && (v <=? 107)) eqn:E4.
+    { apply andb_prop in E4. destruct E4 as [A B]. apply N.leb_le in A, B.
+      destruct (tab_ok (dt_colors tb) (v - 92)) as [c ->]; [lia|]. cbn [bind].
+      eexists; eexists; split; [reflexivity|lia]. }
+    eexists; eexists; split; [reflexivity|lia].
+  Qed.
+
+  Lemma sgr_loop_total fuel : forall face groups,
+    (length groups <= fuel)%nat -> exists f, sgr_loop tb fuel face groups = Ok f.
+  Proof.
+    induction fuel as [|n IH]; intros face groups H.
+    - destruct groups; [eexists; reflexivity|cbn in H; lia].
+    - destruct groups as [|g rest]; [eexists; reflexivity|]. cbn [sgr_loop].
+      destruct (sgr_group_total face g rest) as (f & r & -> & Hr). cbn [bind].
+      apply IH. cbn in H. lia.
+  Qed.
+
+  Theorem sgr_face_total data : exists f, sgr_face tb data = Ok f.
+  Proof. unfold sgr_face. apply sgr_loop_total. lia. Qed.
+
+  Theorem dec_sgr_total data : (3 <= length data)%nat -> exists r, dec_sgr tb data = Ok r.
+  Proof.
+    intros H. unfold dec_sgr. destruct (mid_ok data 2 1) as [body ->]; [lia|]. cbn [bind].
+    destruct (sgr_face_total body) as [f ->]. cbn [bind]. eexists; reflexivity.
+  Qed.
+
+  Theorem dec_report_total data : (7 <= length data)%nat -> exists r, dec_report tb data = Ok r.
+  Proof.
+    intros H. unfold dec_report.
+    destruct (index_ok data 2) as [code ->]; [lia|]. cbn [bind].
+    destruct (mid_ok data 5 2) as [body ->]; [lia|]. cbn [bind].
+    destruct (negb (code =? 49)); [eexists; reflexivity|].
+    destruct (ends_with_m body); [|eexists; reflexivity].
+    destruct (sgr_face_total (removelast body)) as [f ->]. cbn [bind]. eexists; reflexivity.
+  Qed.
+End SgrTotal.
 
 Theorem dec_kitty_image_total data : (5 <= length data)%nat -> exists r, dec_kitty_image data = Ok r.
 Proof.
@@ -148,13 +275,6 @@ Proof.
   destruct (index_ok data (length data - 1)) as [last ->]; [lia|]. cbn [bind].
   destruct (mid_ok data 2 1) as [b1 E1]; [lia|]. destruct (mid_ok data 2 2) as [b2 E2]; [lia|].
   destruct (last =? 7); [rewrite E1|rewrite E2]; cbn [bind]; total_cases.
-Qed.
-
-Theorem dec_report_total data : (7 <= length data)%nat -> exists r, dec_report data = Ok r.
-Proof.
-  intros H. unfold dec_report.
-  destruct (index_ok data 2) as [code ->]; [lia|]. cbn [bind].
-  destruct (mid_ok data 5 2) as [body ->]; [lia|]. total_cases.
 Qed.
 
 Lemma utf8_code_total data : (1 <= length data <= 4)%nat -> exists c, utf8_code data = Ok c.
